@@ -2681,6 +2681,8 @@ static void struct_members(Token **rest, Token *tok, Type *ty) {
 
       Member *mem = calloc(1, sizeof(Member));
       mem->ty = declarator(&tok, tok, basety);
+      if ((mem->ty->kind == TY_STRUCT || mem->ty->kind == TY_UNION) && mem->ty->size < 0)
+        error_tok(tok, "field has incomplete type");
       mem->name = mem->ty->name;
       mem->idx = idx++;
       mem->align = attr.align ? attr.align : mem->ty->align;
